@@ -2,33 +2,40 @@
 
 import re
 
-from .. import isagen, x86step
+from .. import isagen, rvstep, x86step
 from ..core import Discard, HarnessError, Stats, hyp_search, jhash, open_finding_ids, subseed
 
 PID = "C07"
 TARGET = "x86_64"
+RV_TARGETS = ("riscv", "riscv:rvc")
+
+
+def is_rv(target):
+    return target.startswith("riscv")
 RULE = (
-    "x86-64 instruction instances AS THE CODE GENERATOR EMITS THEM: the final (post register allocation) instruction "
-    "list of every frame is captured by wrapping CodeGenerator.emit_frame_to_stream while compiling (a) a fixed corpus "
-    "of small C idiom functions at -O0 and -O2, (b) Hypothesis-generated C programs (vf/gencc.py) and (c) "
+    "instruction instances AS THE CODE GENERATOR EMITS THEM, for x86_64 and (when vf/rv32.py passes its self-check) riscv and "
+    "riscv:rvc: the final (post register allocation) instruction list of every frame is captured by wrapping "
+    "CodeGenerator.emit_frame_to_stream while compiling (a) a fixed corpus of small C idiom functions at -O0 and -O2 and "
+    "one-instruction IR functions for the 8/16-bit operations, (b) Hypothesis-generated C programs (vf/gencc.py) and (c) "
     "Hypothesis-generated IR modules (vf/genir.py); every real instruction becomes a unit = (class, operands, the "
-    "RegisterUseDef pseudo-instructions directly before/after it; `rep` + `movsb` form one unit); each harvested unit is "
+    "RegisterUseDef pseudo-instructions directly before/after it; x86 `rep` + `movsb` form one unit); each harvested unit is "
     "tested as emitted and re-instantiated with other registers / immediates / displacements of the same operand shape "
-    "(vf/isagen.py, allocatable registers only). Each instance is executed natively (vf/x86step.c) on boundary-biased "
-    "random register files (16 GPRs, 6 arithmetic flags, xmm0-15; address registers point into a refilled scratch arena) and, "
-    "for every state, on copies that differ in the undeclared bits of ONE register. Oracle (writes): a ppci register whose bits "
-    "changed must lie in the alias closure (arch.info.alias) of operand writes + clobbers + adjacent RegisterUseDef defs; "
-    "(reads): runs that agree on declared reads + adjacent uses + flags + arena must agree on the declared output bits and "
-    "on the arena. non-trivial = the instance names >= 2 registers (operands or adjacent uses/defs); "
-    "distinct = (class, operand shape, adjacent use/def signature)"
+    "(vf/isagen.py, allocatable registers only). Each instance is executed (x86-64: natively through vf/x86step.c; RISC-V: "
+    "vf/rv32.py) on boundary-biased random register files (x86: 16 GPRs, 6 arithmetic flags, xmm0-15; RISC-V: x1-x31; address "
+    "registers point into a refilled scratch arena) and, for every state, on copies that differ in the undeclared bits of ONE "
+    "register. Oracle (writes): a ppci register whose bits changed must lie in the alias closure (arch.info.alias) of operand "
+    "writes + clobbers + adjacent RegisterUseDef defs; (reads): runs that agree on declared reads + adjacent uses + flags + "
+    "arena must agree on the declared output bits and on the arena. non-trivial = the instance names >= 2 registers "
+    "(operands or adjacent uses/defs); distinct = (target, class, operand shape, adjacent use/def signature)"
 )
 ASSUMPTIONS = [
-    "the host CPU implements the x86-64 architecture as documented (it is the reference machine)",
-    "rflags and mxcsr are implicit machine state that ppci does not model: flag reads/writes are not annotations; both runs of a read check start from equal flags",
+    "the host CPU implements the x86-64 architecture as documented (it is the reference machine); vf/rv32.py implements RV32IMC as documented (validated independently of ppci by its self-check, refused otherwise)",
+    "x86 rflags and mxcsr are implicit machine state that ppci does not model: flag reads/writes are not annotations; both runs of a read check start from equal flags",
     "bits 64-127 of the xmm registers are not modelled by any ppci register and are ignored",
-    "adjacent RegisterUseDef pseudo-instructions (contiguous run directly before and after the instruction, labels break the run) declare the implicit operands of that instruction",
+    "adjacent RegisterUseDef pseudo-instructions (contiguous run directly before and after the instruction, labels break the run) declare the implicit operands of that instruction; an adjacent def is an output of the instruction only in the bits the instruction is observed to change",
     "re-instantiated variants keep the harvested RegisterUseDef neighbourhood (the implicit operands are fixed registers)",
-    "faulting executions (SIGSEGV/SIGILL/SIGFPE/SIGBUS) decide nothing and are counted untestable",
+    "faulting executions (SIGSEGV/SIGILL/SIGFPE/SIGBUS, emulator exceptions) decide nothing and are counted untestable",
+    "pc and sp effects of control-transfer / call / push / pop classes are documented implicit state: those classes are excluded",
 ]
 TRUSTED = [
     "CPython",
@@ -36,16 +43,18 @@ TRUSTED = [
     "gcc (builds vf/x86step.c)",
     "the host x86-64 CPU",
     "vf/x86step.c + vf/x86step.py (trampoline, register table from Intel SDM vol.1 3.4.1 / 10.2.2)",
-    "GNU objdump (encoding guard only)",
+    "vf/rv32.py + vf/rvstep.py (RISC-V emulator with its own self-validation against llvm-mc and clang/gcc)",
+    "GNU objdump, llvm-mc (encoding guard only)",
     "vf/isagen.py, vf/gencc.py, vf/genir.py (generators)",
 ]
 REGISTER = False
-TECHNIQUE = "native single-stepping of harvested and re-instantiated x86-64 instructions on random register files; write-set and read-set (perturb one register) oracles against ppci's annotations"
+TECHNIQUE = "single-stepping of harvested and re-instantiated instructions (x86-64 natively, RISC-V in a validated emulator) on random register files; write-set and read-set (perturb one register) oracles against ppci's annotations"
 LEVEL_TEXT = (
-    "Exploration: every instruction class and operand shape the x86-64 code generator emitted for the corpora is executed on the "
-    "real CPU from random machine states; registers that change outside the declared write set and outputs that depend on "
-    "undeclared registers are violations. The machine is the specification, so no model of instruction semantics is trusted; "
-    "only the classes the corpora reach are covered, riscv/arm/thumb/m68k/mips are not executed."
+    "Exploration: every instruction class and operand shape the x86-64 and RISC-V code generators emitted for the corpora is "
+    "executed (x86-64 on the real CPU, RISC-V in an emulator validated independently of ppci) from random machine states; "
+    "registers that change outside the declared write set and outputs that depend on undeclared registers are violations. "
+    "The machine is the specification, so no per-instruction model is written for the check; only the classes the corpora "
+    "reach are covered, arm/thumb/m68k/mips are not executed."
 )
 
 NSTATES_QUICK = 6
@@ -68,11 +77,22 @@ EXCLUDED_MNEMONICS = {
 }
 
 
-def excluded_reason(cls):
+def excluded_reason(cls, target=TARGET, ins=None):
     from ppci.arch.generic_instructions import ArtificialInstruction
 
-    if issubclass(cls, ArtificialInstruction):
+    if issubclass(cls, ArtificialInstruction) and not is_rv(target):
         return "pseudo push/pop"
+    if is_rv(target):
+        # decided by the reference decoder of the emulator, not by ppci's class tables
+        if isagen.is_data_pseudo(cls) or cls.__module__.endswith("data_instructions"):
+            return "data pseudo-instruction"
+        try:
+            d = rvstep.decode_code(isagen.emit_direct_parts(ins)[0]) if ins is not None else None
+        except Exception:
+            return None
+        if d is not None and d[0] in rvstep.CONTROL_OPS:
+            return "control transfer"
+        return None
     m = isagen.mnemonic(cls)
     if m in EXCLUDED_MNEMONICS:
         return EXCLUDED_MNEMONICS[m]
@@ -115,15 +135,15 @@ def _install_hook():
     _HOOKED.append(orig)
 
 
-_ARCH = []
+_ARCH = {}
 
 
-def arch():
-    if not _ARCH:
+def arch(target=TARGET):
+    if target not in _ARCH:
         from ppci.api import get_arch
 
-        _ARCH.append(get_arch(TARGET))
-    return _ARCH[0]
+        _ARCH[target] = get_arch(target)
+    return _ARCH[target]
 
 
 def compile_src(src):
@@ -134,11 +154,12 @@ def compile_src(src):
 
     _install_hook()
     del _CAPTURED[:]
+    target = src.get("target", TARGET)
     try:
         if src["kind"] == "c":
             from ppci.api import cc
 
-            cc(io.StringIO(src["text"]), arch(), opt_level=src.get("opt", 0))
+            cc(io.StringIO(src["text"]), arch(target), opt_level=src.get("opt", 0))
         elif src["kind"] == "ir":
             from ppci.api import ir_to_object, optimize
 
@@ -147,7 +168,7 @@ def compile_src(src):
             m = genir.build(src["desc"])
             if src.get("opt", 0):
                 optimize(m, level=src["opt"])
-            ir_to_object([m], arch())
+            ir_to_object([m], arch(target))
         else:
             raise HarnessError("unknown source kind %r" % (src.get("kind"),))
     except HarnessError:
@@ -162,26 +183,57 @@ def compile_src(src):
 # ---------------------------------------------------------------------------
 # units
 
-_REGS_BY_ID = {}
+_REGS_BY_ID = {}  # family -> {(class name, register name): register object}
 
 
-def _reg_by_id(cname, name):
-    if not _REGS_BY_ID:
+def family(target):
+    return "rv" if is_rv(target) else "x86"
+
+
+def _regmap(target):
+    fam = family(target)
+    if fam not in _REGS_BY_ID:
         from ppci.arch.registers import Register
-        from ppci.arch.x86_64 import registers as R
 
+        if fam == "rv":
+            from ppci.arch.riscv import registers as R
+        else:
+            from ppci.arch.x86_64 import registers as R
+        m = {}
         for v in vars(R).values():
             if isinstance(v, Register) and v._num is not None:
-                _REGS_BY_ID.setdefault((type(v).__name__, v.name), v)
+                m.setdefault((type(v).__name__, v.name), v)
+        _REGS_BY_ID[fam] = m
+    return _REGS_BY_ID[fam]
+
+
+def _reg_by_id(target, cname, name):
     try:
-        return _REGS_BY_ID[(cname, name)]
+        return _regmap(target)[(cname, name)]
     except KeyError:
         raise Discard("no register %s %s" % (cname, name))
 
 
+def _real(reg):
+    """The hardware register a (coloured virtual) register stands for."""
+    if reg._num is not None:
+        return reg
+    try:
+        return reg.get_real()
+    except NotImplementedError:
+        for r in type(reg).all_registers():
+            if r.num == reg.color:
+                return r
+        raise
+
+
 def _rid(reg):
-    reg = reg.get_real()
+    reg = _real(reg)
     return [type(reg).__name__, reg.name]
+
+
+def locate(target, reg):
+    return rvstep.locate(reg) if is_rv(target) else x86step.locate(reg)
 
 
 def _describe_args(obj):
@@ -190,7 +242,7 @@ def _describe_args(obj):
         k = isagen.kind_of(fa._cls)
         v = getattr(obj, fa._name)
         if k == "reg":
-            out.append(["r", isagen.reg_id_of(fa._cls, v.get_real())])
+            out.append(["r", isagen.reg_id_of(fa._cls, _real(v))])
         elif k in ("int", "str"):
             out.append(v)
         elif k == "ctor":
@@ -220,10 +272,44 @@ def _shape(args):
 REP_MOVSB = "Rep+Movsb"
 
 
+def class_id(target, cls):
+    """isagen's class id, or "py:<module>:<name>" for classes that are not registered in the isa
+    (the RISC-V pseudo-instructions that pick the compressed or the base encoding when emitted)."""
+    cid = isagen.class_id_of(target, cls)
+    if cid is None and getattr(cls, "syntax", None):
+        return "py:%s:%s" % (cls.__module__, cls.__name__)
+    return cid
+
+
+def class_of(target, cid):
+    if cid.startswith("py:"):
+        import importlib
+
+        _, mod, name = cid.split(":")
+        if not mod.startswith("ppci.arch."):
+            raise Discard("class outside ppci.arch")
+        try:
+            return getattr(importlib.import_module(mod), name)
+        except (ImportError, AttributeError):
+            raise Discard("no class %s" % cid)
+    try:
+        return isagen.class_by_id(target, cid)
+    except isagen.BuildError as e:
+        raise Discard(str(e))
+
+
+def build_instruction(desc):
+    if desc["cls"].startswith("py:"):
+        cls = class_of(desc["target"], desc["cls"])
+        return cls(*isagen._build_args(desc["target"], cls, desc["args"]))
+    return isagen.build(desc)
+
+
 class Unit:
     """One harvested machine instruction with its RegisterUseDef neighbourhood."""
 
-    def __init__(self, cid, args, uses, defs, clobbers, fname, code):
+    def __init__(self, cid, args, uses, defs, clobbers, fname, code, target=TARGET):
+        self.target = target
         self.cid = cid
         self.args = args
         self.uses = sorted(uses)
@@ -231,7 +317,8 @@ class Unit:
         self.clobbers = sorted(clobbers)
         self.fname = fname
         self.code = code
-        self.key = "%s|%s|u:%s|d:%s" % (
+        self.key = "%s%s|%s|u:%s|d:%s" % (
+            target + "!" if target != TARGET else "",
             cid,
             _shape(args),
             ",".join(n for _, n in self.uses),
@@ -239,10 +326,10 @@ class Unit:
         )
 
     def desc(self, args=None):
-        return {"target": TARGET, "cls": self.cid, "args": self.args if args is None else args}
+        return {"target": self.target, "cls": self.cid, "args": self.args if args is None else args}
 
 
-def harvest(frames, stats=None):
+def harvest(frames, stats=None, target=TARGET):
     """[(fname, instructions)] -> [Unit] in emission order."""
     from ppci.arch.generic_instructions import (
         ArtificialInstruction,
@@ -291,19 +378,20 @@ def harvest(frames, stats=None):
                     stats.hist["excluded:inline assembly"] += 1
                 i += 1
                 continue
-            if isinstance(ins, (ArtificialInstruction, VirtualInstruction)) or not getattr(cls, "syntax", None):
+            rv_pseudo = is_rv(target) and isinstance(ins, ArtificialInstruction) and getattr(cls, "syntax", None)
+            if (isinstance(ins, (ArtificialInstruction, VirtualInstruction)) and not rv_pseudo) or not getattr(cls, "syntax", None):
                 if stats is not None:
                     stats.hist["excluded:pseudo/virtual"] += 1
                 i += 1
                 continue
-            why = excluded_reason(cls)
+            why = excluded_reason(cls, target, ins)
             if why is not None:
                 if stats is not None:
                     stats.hist["excluded:" + why] += 1
                 i += 1
                 continue
-            cid = isagen.class_id_of(TARGET, cls)
-            if cid == "Rep":
+            cid = class_id(target, cls)
+            if cid == "Rep" and not is_rv(target):
                 # rep ; [usedefs] ; movsb  -> one machine instruction
                 mid = run_after(i)
                 j = i + 1 + len(mid)
@@ -326,13 +414,13 @@ def harvest(frames, stats=None):
                 continue
             u, d = usedefs(run_before(i) + run_after(i))
             try:
-                code = ins.encode()
+                code = isagen.emit_direct_parts(ins)[0]
             except Exception:
                 if stats is not None:
                     stats.hist["excluded:unencodable"] += 1
                 i += 1
                 continue
-            units.append(Unit(cid, args, u, d, [_rid(r) for r in ins.clobbers], fname, code))
+            units.append(Unit(cid, args, u, d, [_rid(r) for r in ins.clobbers], fname, code, target))
             i += 1
     return units
 
@@ -363,17 +451,18 @@ class _RepMovsb:
         return " ".join(str(p) for p in self.parts)
 
 
-_ALIAS = {}
+_ALIAS = {}  # family -> {id(register): alias set}
 
 
-def alias_of(reg):
+def alias_of(target, reg):
     """ppci's alias set of a register: arch.info.alias where it has an entry, else the same
     relation computed from the registers' own `aliases` attributes."""
-    if not _ALIAS:
-        _reg_by_id("Register64", "rax")
-        info = arch().info.alias
-        regs = list(_REGS_BY_ID.values())
+    fam = family(target)
+    if fam not in _ALIAS:
+        info = arch(target).info.alias
+        regs = list(_regmap(target).values())
         down = {}
+        table = {}
 
         def subs(r):
             if id(r) not in down:
@@ -386,57 +475,73 @@ def alias_of(reg):
 
         for r in regs:
             if r in info:
-                _ALIAS[id(r)] = set(info[r])
+                table[id(r)] = set(info[r])
             else:
                 s = {r} | set(subs(r))
                 for q in regs:
                     if any(x is r for x in subs(q)):
                         s.add(q)
-                _ALIAS[id(r)] = s
-    return _ALIAS.get(id(reg), {reg})
+                table[id(r)] = s
+        _ALIAS[fam] = table
+    return _ALIAS[fam].get(id(reg), {reg})
 
 
-_ALLREGS = []
+_ALLREGS = {}
 
 
-def all_regs():
-    """[(register object, file, index, offset, width)] for every ppci x86-64 register with a
-    place in the architectural table."""
-    if not _ALLREGS:
-        _reg_by_id("Register64", "rax")
-        for r in _REGS_BY_ID.values():
-            loc = x86step.locate(r)
+def all_regs(target=TARGET):
+    """[(register object, file, index, offset, width)] for every ppci register of the target with
+    a place in the architectural table."""
+    fam = family(target)
+    if fam not in _ALLREGS:
+        out = []
+        for r in _regmap(target).values():
+            loc = locate(target, r)
             if loc is not None:
-                _ALLREGS.append((r,) + loc)
-    return _ALLREGS
+                out.append((r,) + loc)
+        _ALLREGS[fam] = out
+    return _ALLREGS[fam]
 
 
 _BYFULL = {}
 
 
-def regs_by_full():
+def regs_by_full(target=TARGET):
     """{(file, index): [(register object, offset, width)] widest first}"""
-    if not _BYFULL:
-        for r, f, i, lo, w in all_regs():
-            _BYFULL.setdefault((f, i), []).append((r, lo, w))
-        for f in ("g", "x"):
-            for i in range(16):
-                _BYFULL.setdefault((f, i), [])
-                _BYFULL[(f, i)].sort(key=lambda t: (-t[2], t[1]))
-    return _BYFULL
+    fam = family(target)
+    if fam not in _BYFULL:
+        t = {}
+        for r, f, i, lo, w in all_regs(target):
+            t.setdefault((f, i), []).append((r, lo, w))
+        for f, n in (("g", 32 if fam == "rv" else 16),) + ((("x", 16),) if fam == "x86" else ()):
+            for i in range(n):
+                t.setdefault((f, i), [])
+                t[(f, i)].sort(key=lambda e: (-e[2], e[1]))
+        _BYFULL[fam] = t
+    return _BYFULL[fam]
 
 
 def _mask(lo, width):
     return ((1 << width) - 1) << lo
 
 
-def full_name(f, i):
+def full_name(f, i, target=TARGET):
+    if is_rv(target):
+        return "x%d" % i
     return x86step.GPR[i] if f == "g" else "xmm%d" % i
+
+
+def reg_bit(f, i):
+    """Position of a full register in the `changed` bit sets of the engines."""
+    return i if f == "g" else 16 + i
 
 
 class Instance:
     def __init__(self, unit, args=None):
         self.unit = unit
+        self.nsub = 1
+        self.target = t = unit.target
+        self.rv = is_rv(t)
         self._suspect = None
         self.args = unit.args if args is None else args
         if unit.cid == REP_MOVSB:
@@ -444,28 +549,43 @@ class Instance:
             clob = []
         else:
             try:
-                self.ins = isagen.build(unit.desc(self.args))
+                self.ins = build_instruction(unit.desc(self.args))
             except isagen.BuildError as e:
                 raise Discard("cannot build instance: %s" % e)
-            clob = [_reg_by_id(c, n) for c, n in unit.clobbers]
+            clob = [_reg_by_id(t, c, n) for c, n in unit.clobbers]
         try:
-            self.code = self.ins.encode()
-            self.text = str(self.ins)
+            from ppci.arch.generic_instructions import ArtificialInstruction
+
+            if self.rv and isinstance(self.ins, ArtificialInstruction):
+                # RISC-V pseudo-instructions (the allocator saw their annotations) render to the
+                # compressed or the base encoding when they are emitted
+                # (a few render to a short straight-line sequence, e.g. lui + addi for a constant)
+                subs = list(self.ins.render())
+                if not 1 <= len(subs) <= 3:
+                    raise Discard("pseudo-instruction renders to %d machine instructions" % len(subs))
+                self.code = b"".join(x.encode() for x in subs)
+                self.text = "; ".join(str(x) for x in subs)
+                self.nsub = len(subs)
+            else:
+                self.code = self.ins.encode()
+                self.text = str(self.ins)
+        except Discard:
+            raise
         except Exception as e:
             raise Discard("instance not encodable (%s)" % type(e).__name__)
         if not 0 < len(self.code) <= x86step.MAXCODE:
             raise Discard("instance encodes to %d bytes" % len(self.code))
-        uses = [_reg_by_id(c, n) for c, n in unit.uses]
-        defs = [_reg_by_id(c, n) for c, n in unit.defs]
-        self.reads = [r.get_real() for r in self.ins.used_registers] + uses
-        self.writes = [r.get_real() for r in self.ins.defined_registers] + defs
+        uses = [_reg_by_id(t, c, n) for c, n in unit.uses]
+        defs = [_reg_by_id(t, c, n) for c, n in unit.defs]
+        self.reads = [_real(r) for r in self.ins.used_registers] + uses
+        self.writes = [_real(r) for r in self.ins.defined_registers] + defs
         self.clobbers = clob
         self.closure = set()
         for r in self.writes + self.clobbers:
-            self.closure |= {id(q) for q in alias_of(r)}
+            self.closure |= {id(q) for q in alias_of(t, r)}
         self.readmask = {}
         for r in self.reads:
-            loc = x86step.locate(r)
+            loc = locate(t, r)
             if loc is not None:
                 f, i, lo, w = loc
                 self.readmask[(f, i)] = self.readmask.get((f, i), 0) | _mask(lo, w)
@@ -475,12 +595,12 @@ class Instance:
         self.outmask = {}
         self.adjmask = {}
         for r in self.ins.defined_registers:
-            loc = x86step.locate(r.get_real())
+            loc = locate(t, _real(r))
             if loc is not None:
                 f, i, lo, w = loc
                 self.outmask[(f, i)] = self.outmask.get((f, i), 0) | _mask(lo, w)
         for r in defs:
-            loc = x86step.locate(r)
+            loc = locate(t, r)
             if loc is not None:
                 f, i, lo, w = loc
                 self.adjmask[(f, i)] = self.adjmask.get((f, i), 0) | _mask(lo, w)
@@ -488,8 +608,11 @@ class Instance:
         self.mem = None  # (base gpr index, index gpr index | None, displacement)
         self.addr_regs = set()
         self.unsupported_mem = None
-        self._scan_mem(self.args)
-        self.mnemonic = "rep movsb" if unit.cid == REP_MOVSB else isagen.mnemonic(isagen.class_by_id(TARGET, unit.cid))
+        self.mnemonic = "rep movsb" if unit.cid == REP_MOVSB else isagen.mnemonic(class_of(t, unit.cid))
+        if self.rv:
+            self._scan_rv()
+        else:
+            self._scan_mem(self.args)
         if unit.cid == REP_MOVSB:
             self.addr_regs = {6, 7}
         self.nregs = len({(type(r).__name__, r.name) for r in self.reads + self.writes})
@@ -497,14 +620,34 @@ class Instance:
     def _gidx(self, name):
         return x86step.GPR.index(name)
 
+    def _scan_rv(self):
+        """RISC-V: what the instruction is at machine level comes from the emulator's decoder."""
+        pos = 0
+        n = 0
+        while pos < len(self.code):
+            d = rvstep.decode_code(self.code[pos:])
+            if d is None:
+                raise Discard("the reference emulator cannot decode the encoding")
+            if d[0] in rvstep.CONTROL_OPS:
+                raise Discard("control transfer (excluded class)")
+            if d[0] in rvstep.MEM_OPS:
+                if pos or d[5] != len(self.code):
+                    raise Discard("memory access inside a multi-instruction sequence")
+                self.mem = (d[2], None, d[4])
+                self.addr_regs = {d[2]}
+            pos += d[5]
+            n += 1
+        if n != self.nsub:
+            raise Discard("instance encodes to %d machine instructions, ppci renders %d" % (n, self.nsub))
+
     def suspect_mask(self):
         """Bit set (bit i: gpr i, bit 16+i: xmm i) of the full registers that are NOT entirely inside
         the alias closure of the declared writes: a change there needs the bit-level check."""
         if self._suspect is None:
             m = 0
-            for (f, i), regs in regs_by_full().items():
+            for (f, i), regs in regs_by_full(self.target).items():
                 if not regs or not all(id(r) in self.closure for r, _, _ in regs):
-                    m |= 1 << (i if f == "g" else 16 + i)
+                    m |= 1 << reg_bit(f, i)
             self._suspect = m
         return self._suspect
 
@@ -531,6 +674,41 @@ class Instance:
 
 A = x86step.ARENA_BASE
 M64 = x86step.M64
+
+
+def _rv_state(rng):
+    g = [x86step.biased64(rng) & 0xFFFFFFFF for _ in range(32)]
+    g[0] = 0
+    return {"g": g, "x": []}
+
+
+def _shape_state_rv(inst, st, rng):
+    if inst.mem is not None:
+        base, _, imm = inst.mem
+        t = 512 + rng.below(rvstep.ARENA_SIZE - 1024)
+        if rng.below(4):
+            t &= ~3
+        if base != 0:
+            st["g"][base] = (rvstep.ARENA_BASE + t - imm) & 0xFFFFFFFF
+
+
+def _perturbations_rv(inst, st, rng, sidx=0):
+    out = []
+    flip = sidx & 1
+    for i in range(1, 32):
+        pm = ~inst.readmask.get(("g", i), 0) & 0xFFFFFFFF
+        if not pm:
+            continue
+        v = st["g"][i]
+        if i in inst.addr_regs:
+            nv = (v + 4 * (1 + rng.below(16))) & 0xFFFFFFFF
+        else:
+            low = pm & -pm
+            nv = v ^ low if flip else (v & ~pm & 0xFFFFFFFF) | (x86step.biased64(rng) & pm)
+            if nv == v:
+                nv = v ^ low
+        out.append(("g", i, nv))
+    return out
 
 
 def _shape_state(inst, st, rng):
@@ -625,6 +803,7 @@ def _perturbations(inst, st, rng, sidx=0):
 class Failure:
     def __init__(self, kind, inst, reg, out, detail):
         self.kind = kind  # "WRITE" | "READ"
+        self.target = inst.target
         self.cid = inst.unit.cid
         self.reg = reg  # full register that changed undeclared / that was perturbed
         self.out = out  # READ: output that differed (full register name or "arena")
@@ -633,15 +812,17 @@ class Failure:
         self.detail = detail
 
     def line(self):
-        return "%s cls=%s reg=%s out=%s rm=%s :: `%s` %s" % (self.kind, self.cid, self.reg, self.out or "-", self.rm_reg or "-", self.text, self.detail)
+        return "%s tgt=%s cls=%s reg=%s out=%s rm=%s :: `%s` %s" % (self.kind, self.target, self.cid, self.reg, self.out or "-", self.rm_reg or "-", self.text, self.detail)
 
 
-_LINE = re.compile(r"^(WRITE|READ) cls=(\S+) reg=(\S+) out=(\S+) rm=(\S+) :: ")
+_LINE = re.compile(r"^(WRITE|READ) tgt=(\S+) cls=(\S+) reg=(\S+) out=(\S+) rm=(\S+) :: ")
 
 
 def _rm_register(inst):
     """"<full register>@<operand position>" of the r/m operand when it is in register mode
     (RmReg8/16/32/64), else None."""
+    if inst.rv:
+        return None
     for pos, a in enumerate(inst.args):
         if isinstance(a, list) and a and a[0] == "c" and a[1].startswith("RmReg"):
             cls = {"RmReg8": "Register8", "RmReg16": "Register16", "RmReg32": "Register32", "RmReg64": "Register64"}.get(a[1])
@@ -657,7 +838,7 @@ def _fmt_decl(regs):
 
 def _prepare(inst, seed, nstates):
     """(plan, records, states) for one instance: per state the base run and one run per register
-    whose undeclared bits are perturbed."""
+    whose undeclared bits are perturbed.  x86: packed stepper records; RISC-V: (code, state, seed)."""
     if inst.unsupported_mem:
         raise Discard("memory operand %s is not placed in the arena" % inst.unsupported_mem)
     rng = x86step.Rng(seed)
@@ -666,6 +847,19 @@ def _prepare(inst, seed, nstates):
     recs = []
     states = []
     for s in range(nstates):
+        if inst.rv:
+            st = _rv_state(rng)
+            _shape_state_rv(inst, st, rng)
+            aseed = rng.next()
+            states.append(st)
+            plan.append((s, None))
+            recs.append((code, st, aseed))
+            for f, i, nv in _perturbations_rv(inst, st, rng, s):
+                g = list(st["g"])
+                g[i] = nv
+                plan.append((s, (f, i, nv)))
+                recs.append((code, {"g": g}, aseed))
+            continue
         st = x86step.random_state(rng)
         _shape_state(inst, st, rng)
         aseed = rng.next()
@@ -689,30 +883,37 @@ def _prepare(inst, seed, nstates):
 def evaluate(inst, seed, nstates, counters=None):
     """Run one instance on nstates random states (+ perturbed copies).  Returns [Failure] (one per
     (kind, register, output)); counters (dict) receives execution statistics."""
-    return evaluate_many([(inst, seed, nstates)], counters)[0]
+    r = evaluate_many([(inst, seed, nstates)], counters)[0]
+    if isinstance(r, Discard):
+        raise r
+    return r
 
 
 def evaluate_many(jobs, counters=None):
-    """jobs: [(instance, seed, nstates)] -> [[Failure] | Discard] (same order); all jobs share one
-    request to the stepper."""
+    """jobs: [(instance, seed, nstates)] -> [[Failure] | Discard] (same order); all x86 jobs share
+    one request to the stepper, the RISC-V jobs run in the in-process emulator."""
     prepared = []
-    allrecs = []
+    x86recs = []
+    rvrecs = []
     for inst, seed, nstates in jobs:
         try:
             plan, recs, states = _prepare(inst, seed, nstates)
         except Discard as d:
             prepared.append(d)
             continue
-        prepared.append((plan, len(allrecs), len(recs), states))
-        allrecs.extend(recs)
-    results = x86step.run_packed(allrecs) if allrecs else []
+        pool = rvrecs if inst.rv else x86recs
+        prepared.append((plan, len(pool), len(recs), states))
+        pool.extend(recs)
+    xres = x86step.run_packed(x86recs) if x86recs else []
+    rres = rvstep.run_batch(rvrecs) if rvrecs else []
     out = []
     for (inst, seed, nstates), p in zip(jobs, prepared):
         if isinstance(p, Discard):
             out.append(p)
             continue
         plan, a, n, states = p
-        out.append(_judge(inst, seed, nstates, plan, results[a : a + n], states, counters if counters is not None else {}))
+        res = (rres if inst.rv else xres)[a : a + n]
+        out.append(_judge(inst, seed, nstates, plan, res, states, counters if counters is not None else {}))
     return out
 
 
@@ -731,8 +932,10 @@ def _judge(inst, seed, nstates, plan, results, states, counters):
                 outmask[k] = outmask.get(k, 0) | (m & written[k])
     outs = list(outmask.items())
     failures = {}
-    byfull = regs_by_full()
+    byfull = regs_by_full(inst.target)
     suspect = inst.suspect_mask()
+    tgt = inst.target
+    nbits = 32
     base_res = {}
     base_out = {}
     nok = 0
@@ -741,7 +944,8 @@ def _judge(inst, seed, nstates, plan, results, states, counters):
         if pert is None:
             base_res[s] = res
             if res.status != 0:
-                counters["untestable:" + x86step.status_name(res.status)] = counters.get("untestable:" + x86step.status_name(res.status), 0) + 1
+                sn = res.status if isinstance(res.status, str) else x86step.status_name(res.status)
+                counters["untestable:" + sn] = counters.get("untestable:" + sn, 0) + 1
                 continue
             nok += 1
             base_out[s] = [res.reg(f, i) for (f, i), _ in outs]
@@ -760,7 +964,7 @@ def _judge(inst, seed, nstates, plan, results, states, counters):
             for bit in range(32):
                 if not (ch >> bit) & 1:
                     continue
-                f, i = ("g", bit) if bit < 16 else ("x", bit - 16)
+                f, i = ("g", bit) if (bit < 16 or inst.rv) else ("x", bit - 16)
                 vin = pert[2] if pert is not None and pert[0] == f and pert[1] == i else st[f][i]
                 vout = res.reg(f, i)
                 d = (vin ^ vout) & (M64 if f == "x" else x86step.M128)
@@ -768,25 +972,25 @@ def _judge(inst, seed, nstates, plan, results, states, counters):
                 if not bad:
                     continue
                 r = bad[0]  # widest first
-                k = ("WRITE", full_name(f, i), None)
+                k = ("WRITE", full_name(f, i, tgt), None)
                 if k not in failures:
                     failures[k] = Failure(
                         "WRITE",
                         inst,
-                        full_name(f, i),
+                        full_name(f, i, tgt),
                         None,
                         "changed %s (%#x -> %#x) which is outside the alias closure of the declared writes %s + clobbers %s; declared reads %s [seed %d state %d%s]"
-                        % (r.name, vin, vout, _fmt_decl(inst.writes), _fmt_decl(inst.clobbers), _fmt_decl(inst.reads), seed, s, "" if pert is None else " perturbed %s" % full_name(pert[0], pert[1])),
+                        % (r.name, vin, vout, _fmt_decl(inst.writes), _fmt_decl(inst.clobbers), _fmt_decl(inst.reads), seed, s, "" if pert is None else " perturbed %s" % full_name(pert[0], pert[1], tgt)),
                     )
         # --- reads: outputs must not depend on the perturbed (undeclared) register
         if pert is not None:
             b = base_res[s]
-            pname = full_name(pert[0], pert[1])
+            pname = full_name(pert[0], pert[1], tgt)
             bad = None
             for ((f, i), m), x in zip(outs, base_out[s]):
                 y = res.reg(f, i)
                 if (x ^ y) & m:
-                    bad = (full_name(f, i), "%#x vs %#x (declared output bits %#x)" % (x & m, y & m, m))
+                    bad = (full_name(f, i, tgt), "%#x vs %#x (declared output bits %#x)" % (x & m, y & m, m))
                     break
             if bad is None and b.arena_hash != res.arena_hash:
                 bad = ("arena", "arena contents differ (bytes %d..%d vs %d..%d changed)" % (b.first, b.last, res.first, res.last))
@@ -824,18 +1028,24 @@ def _scratch_dir():
 
 
 def encoding_status(instances):
-    """{index: "ok" | "mismatch: ..." | "unverifiable"} for a list of instances (one objdump run)."""
+    """["ok" | "mismatch: ..." | "unverifiable"] for a list of instances (one reference-decoder run
+    per target: GNU objdump for x86-64, llvm-mc for RISC-V)."""
     from .. import llvmref
 
-    todo = [i for i in instances if i.unit.cid != REP_MOVSB and (i.code, i.text) not in _DECODE_CACHE]
-    if todo:
-        dec = llvmref.reference_decode(TARGET, [i.code for i in todo], _scratch_dir())
-        for inst, d in zip(todo, dec):
+    todo = {}
+    for i in instances:
+        if i.nsub > 1:
+            _DECODE_CACHE[(i.target, i.code, i.text)] = "unverifiable"
+        elif i.unit.cid != REP_MOVSB and (i.target, i.code, i.text) not in _DECODE_CACHE:
+            todo.setdefault(i.target, []).append(i)
+    for target, insts in todo.items():
+        dec = llvmref.reference_decode(target, [i.code for i in insts], _scratch_dir()) if target == TARGET else llvmref.reference_decode(target, [i.code for i in insts])
+        for inst, d in zip(insts, dec):
             if d is None:
                 verdict = "mismatch: reference decoder does not tile the %d bytes %s" % (len(inst.code), inst.code.hex())
             else:
-                a = llvmref.norm_ppci(TARGET, inst.text)
-                b = llvmref.norm_ref(TARGET, d)
+                a = llvmref.norm_ppci(target, inst.text)
+                b = llvmref.norm_ref(target, d)
                 if a is None or b is None:
                     verdict = "unverifiable"
                 else:
@@ -846,13 +1056,13 @@ def encoding_status(instances):
                         verdict = "unverifiable"
                     else:
                         verdict = "mismatch: ppci prints `%s`, bytes %s decode as `%s` (%s)" % (inst.text, inst.code.hex(), "; ".join(t for t, _ in d), llvmref.describe_diff(diff))
-            _DECODE_CACHE[(inst.code, inst.text)] = verdict
+            _DECODE_CACHE[(target, inst.code, inst.text)] = verdict
     out = []
     for i in instances:
         if i.unit.cid == REP_MOVSB:
             out.append("ok" if i.code == b"\xf3\xa4" else "mismatch: rep movsb encodes as %s" % i.code.hex())
         else:
-            out.append(_DECODE_CACHE[(i.code, i.text)])
+            out.append(_DECODE_CACHE[(i.target, i.code, i.text)])
     return out
 
 
@@ -880,10 +1090,12 @@ RM_DEST_BINARY = frozenset(["add_ins", "or_ins", "and_ins", "sub_ins", "xor_ins"
 SHIFT_BY_CL = frozenset(["ShlCl", "ShrCl", "SarCl", "RolCl8", "RorCl8", "ShlCl8", "ShrCl8", "SarCl8"])
 
 
-def classify_failure(kind, cid, reg, out, rm):
+def classify_failure(kind, cid, reg, out, rm, target=TARGET):
     """Id of the known finding a single failure line belongs to (narrow: class set AND the register
     the defect's model predicts), else None."""
     base = cid.split("#")[0]
+    if target != TARGET:
+        return None
     # KF5: shifts by cl read the count register, no operand and no RegisterUseDef says so (visible
     # where an output is declared at all, i.e. through an adjacent def; the destination itself is KF1)
     if kind == "READ" and reg == "rcx" and base in SHIFT_BY_CL:
@@ -912,8 +1124,8 @@ def _line_ids(msg):
         m = _LINE.match(line)
         if not m:
             continue
-        kind, cid, reg, out, rm = m.groups()
-        ids.append(classify_failure(kind, cid, reg, None if out == "-" else out, None if rm == "-" else rm))
+        kind, tgt, cid, reg, out, rm = m.groups()
+        ids.append(classify_failure(kind, cid, reg, None if out == "-" else out, None if rm == "-" else rm, tgt))
     return ids
 
 
@@ -932,7 +1144,7 @@ def _split_failures(failures):
     open_ids = open_finding_ids(PID)
     unknown, known = [], []
     for f in failures:
-        kid = classify_failure(f.kind, f.cid, f.reg, f.out, f.rm_reg)
+        kid = classify_failure(f.kind, f.cid, f.reg, f.out, f.rm_reg, f.target)
         if kid is not None and kid in open_ids:
             known.append((kid, f))
         else:
@@ -957,7 +1169,7 @@ def units_of(src, stats=None):
     if h not in _HARVEST_CACHE:
         if len(_HARVEST_CACHE) > 64:
             _HARVEST_CACHE.clear()
-        _HARVEST_CACHE[h] = harvest(compile_src(src), stats)
+        _HARVEST_CACHE[h] = harvest(compile_src(src), stats, src.get("target", TARGET))
     return _HARVEST_CACHE[h]
 
 
@@ -1001,7 +1213,7 @@ def run_case(case, stats=None):
         info["instances"] += 1
         info["evaluated"].append((inst, v, len(fs)))
         if case.get("focus"):
-            fs = [f for f in fs if classify_failure(f.kind, f.cid, f.reg, f.out, f.rm_reg) == case["focus"]]
+            fs = [f for f in fs if classify_failure(f.kind, f.cid, f.reg, f.out, f.rm_reg, f.target) == case["focus"]]
         u2, k2 = _split_failures(fs)
         unknown.extend(u2)
         known.extend(k2)
@@ -1096,6 +1308,32 @@ def idiom_sources():
     return srcs
 
 
+# RISC-V (RV32IM, soft float: float arithmetic is calls into the runtime and therefore excluded):
+# the integer idioms; `long` is 32 bits there, the 64-bit forms simply repeat the 32-bit ones.
+RV_IDIOMS = (0, 1, 2, 3, 4, 7, 8, 9)
+
+
+def rv_idiom_sources():
+    srcs = []
+    for t in RV_TARGETS:
+        for k in RV_IDIOMS:
+            for lvl in (0, 2):
+                srcs.append({"kind": "c", "text": IDIOMS[k], "opt": lvl, "target": t})
+    # the one-instruction IR functions, several per module (one reference-decoder run per source);
+    # not the ones the RISC-V selector has no rule for (16-bit division and unary operations)
+    fns = []
+    for d in ir_idioms():
+        f = d["functions"][0]
+        if any("64" in ty for _, ty in f["params"]) or "64" in (f["ret"] or ""):
+            continue
+        if f["name"] in ("b_i16_7", "b_u16_7") or f["name"].startswith(("u_i16", "u_u16")):
+            continue
+        fns.append(f)
+    for a in range(0, len(fns), 15):
+        srcs.append({"kind": "ir", "desc": {"ptr_bits": 32, "globals": [], "externals": [], "functions": fns[a : a + 15]}, "opt": 0, "target": "riscv"})
+    return srcs
+
+
 def _gencc_options():
     from .. import gencc
 
@@ -1108,27 +1346,43 @@ def _genir_profile():
     return genir.Profile(name="c07", max_funcs=2, max_blocks=5, max_ins=8, externals=False, indirect_calls=False, observe=False)
 
 
-def program_strategy():
+def program_strategy(targets=(TARGET,)):
+    """Generated sources; RISC-V gets the generated C programs too (the IR generator draws 64-bit
+    types and floats, which that backend mostly rejects)."""
     from hypothesis import strategies as st
 
     from .. import gencc, genir
 
-    cprog = st.tuples(gencc.programs(_gencc_options()), st.sampled_from([0, 2])).map(lambda t: {"kind": "c", "text": t[0]["src"], "opt": t[1]})
-    irprog = genir.modules(_genir_profile()).map(lambda d: {"kind": "ir", "desc": d, "opt": 0})
-    return st.one_of(cprog, irprog)
+    alts = []
+    if TARGET in targets:
+        alts.append(st.tuples(gencc.programs(_gencc_options()), st.sampled_from([0, 2])).map(lambda t: {"kind": "c", "text": t[0]["src"], "opt": t[1]}))
+        alts.append(genir.modules(_genir_profile()).map(lambda d: {"kind": "ir", "desc": d, "opt": 0}))
+    rvs = [t for t in targets if is_rv(t)]
+    if rvs:
+        nofloat = gencc.Options(max_funcs=2, max_stmts=5, max_depth=3, floats=False)
+        alts.append(
+            st.tuples(gencc.programs(nofloat), st.sampled_from([0, 2]), st.sampled_from(rvs)).map(
+                lambda t: {"kind": "c", "text": t[0]["src"], "opt": t[1], "target": t[2]}
+            )
+        )
+    return st.one_of(alts)
 
 
 # ---------------------------------------------------------------------------
 # workers
 
 
-def _allocatable():
+def _allocatable(target=TARGET):
     """{register class name: [register ids]} of the registers the allocator may pick, plus the frame
-    registers rbp/rsp for 64-bit operands (they appear as memory bases)."""
+    registers (x86-64: rbp/rsp for 64-bit operands, they appear as memory bases; RISC-V: sp, fp and
+    the argument/return registers the code generator names itself)."""
     out = {}
-    for rc in arch().info.register_classes:
+    for rc in arch(target).info.register_classes:
         out[rc.typ.__name__] = [r.name for r in rc.registers]
-    out["Register64"] = out["Register64"] + ["rbp", "rsp"]
+    if is_rv(target):
+        out["RiscvRegister"] = sorted(set(out.get("RiscvRegister", [])) | {"x2", "x8", "x10", "x11", "x12", "x13"}, key=lambda n: int(n[1:]))
+    else:
+        out["Register64"] = out["Register64"] + ["rbp", "rsp"]
     return out
 
 
@@ -1136,9 +1390,10 @@ def variant_strategy(unit):
     """Replacement operands of the same shape for a harvested unit."""
     from hypothesis import strategies as st
 
-    if unit.cid == REP_MOVSB or not unit.args:
+    if unit.cid == REP_MOVSB or not unit.args or unit.cid.startswith("py:"):
         return st.just(None)
-    cls = isagen.class_by_id(TARGET, unit.cid)
+    target = unit.target
+    cls = isagen.class_by_id(target, unit.cid)
     keep = set(re.findall(r"([A-Za-z0-9_]+)\(", _shape(unit.args)))
     allnames = set()
 
@@ -1151,7 +1406,7 @@ def variant_strategy(unit):
                         walk(sub)
 
     walk(cls)
-    alloc = _allocatable()
+    alloc = _allocatable(target)
 
     def reg_filter(path, rcls, ids):
         ok = alloc.get(rcls.__name__)
@@ -1170,7 +1425,7 @@ def variant_strategy(unit):
         return None
 
     try:
-        return isagen.args_strategy(TARGET, unit.cid, exclude_ctors=frozenset(allnames - keep), canonical=True, reg_filter=reg_filter, int_filter=int_filter)
+        return isagen.args_strategy(target, unit.cid, exclude_ctors=frozenset(allnames - keep), canonical=True, reg_filter=reg_filter, int_filter=int_filter)
     except isagen.BuildError:
         return st.just(None)
 
@@ -1184,6 +1439,7 @@ def _record(stats, case, inst_infos, unknown, known, info):
             sample = {
                 "instruction": inst.text,
                 "bytes": inst.code.hex(),
+                "target": inst.target,
                 "class": u.cid,
                 "declared_reads": sorted(r.name for r in inst.reads),
                 "declared_writes": sorted(r.name for r in inst.writes),
@@ -1192,7 +1448,8 @@ def _record(stats, case, inst_infos, unknown, known, info):
                 "from_function": u.fname,
                 "states": int(case.get("nstates", NSTATES)),
             }
-        classes = ["class:" + u.cid.split("#")[0], "mnemonic:" + inst.mnemonic, "shape:" + (_shape(inst.args) or "-")]
+        tp = "" if inst.target == TARGET else inst.target + " "
+        classes = ["target:" + inst.target, "class:" + tp + u.cid.split("#")[0], "mnemonic:" + tp + inst.mnemonic, "shape:" + tp + (_shape(inst.args) or "-")]
         if u.uses or u.defs:
             classes.append("with adjacent RegisterUseDef")
         if verdict != "ok":
@@ -1208,7 +1465,7 @@ def _record(stats, case, inst_infos, unknown, known, info):
 def _worker(arg):
     """One shard: compile its sources (fixed idioms + Hypothesis programs), test every new unit as
     harvested, then test re-instantiated variants of the unit kinds it found."""
-    seed, sources, nprog, nvar, nstates = arg
+    seed, sources, nprog, nvar, nstates, targets = arg
     from hypothesis import strategies as st
 
     stats = Stats()
@@ -1271,7 +1528,7 @@ def _worker(arg):
             f = do_source(src)
             return None if f is None else f[1]
 
-        for src, msg in hyp_search(program_strategy(), prop, nprog, seed, stats, classify=None, shrink_budget_s=40):
+        for src, msg in hyp_search(program_strategy(targets), prop, nprog, seed, stats, classify=None, shrink_budget_s=40):
             # turn the (shrunk) program-level failure into a unit-level case
             tested.clear()
             per_key.clear()
@@ -1358,11 +1615,24 @@ def run(ctx):
     nstates = NSTATES_QUICK if ctx.quick else NSTATES
     nprog = ctx.scale(2, 80)
     nvar = ctx.scale(60, 5000)
-    idiom = _split_sources(idiom_sources(), nw)
-    ctx.pmap(_worker, [(subseed(ctx.seed, PID, w), idiom[w], nprog, nvar, nstates) for w in range(nw)])
-    ctx.extra["targets_covered"] = ["x86_64 (native single-stepping on the host CPU)"]
-    ctx.extra["targets_not_covered"] = [
-        "riscv / riscv:rvc (emulator route not wired into this check)",
+    sources = idiom_sources()
+    targets = [TARGET]
+    rv_ok, rv_note = rvstep.validated()
+    ctx.stats.notes.append(rv_note)
+    if rv_ok:
+        for t in RV_TARGETS:
+            arch(t)
+        sources += rv_idiom_sources()
+        targets += list(RV_TARGETS)
+    shards = _split_sources(sources, nw)
+    # quick: RISC-V is covered through the fixed idioms and their variants only
+    ptargets = (TARGET,) if ctx.quick else tuple(targets)
+    ctx.pmap(_worker, [(subseed(ctx.seed, PID, w), shards[w], nprog, nvar, nstates, ptargets) for w in range(nw)])
+    ctx.extra["targets_covered"] = ["x86_64 (native single-stepping on the host CPU)"] + (
+        ["riscv, riscv:rvc (RV32IM+C integer instructions in the emulator vf/rv32.py, which passed its own self-check)"] if rv_ok else []
+    )
+    ctx.extra["targets_not_covered"] = ([] if rv_ok else ["riscv, riscv:rvc (vf/rv32.py did not pass its self-check: %s)" % rv_note]) + [
+        "riscv:rvf (no floating point in the emulator)",
         "arm",
         "arm:thumb",
         "m68k",
